@@ -311,7 +311,7 @@ PROPS = {
             "thread::panicking() inside an arm that runs nested on an unwinding poller thread suppresses the Cancel panic of check_cancel: modelled (`sup`) as the code behaves; the resulting livelock of arms that wait for ever is a reported defect and such arms are not generated together with panicking arms (VH_CQ_LIVELOCK=1 enables them)",
         ],
         assumptions=[
-            "poller_not_stuck is partial (the to_wake/token half of the register-then-recheck invariant is not proved; the model has the fields and steps, the replay checks which blocker every take finds)",
+            "fair scheduling for poller_not_stuck (quiescence form: parked without token and no arm inside a cqueue operation => nothing queued, still registered, some arm still in a top half)",
             "quantitative time is not modelled: Timeout-not-before-the-duration is a harness oracle (wall-clock lower bound), not a theorem",
             "one poller per cqueue (add/poll/drop from the owner), Selector::remove from one other thread; arms added before the first poll in the scenarios (the model allows add at any idle point)",
             "a coroutine poller that unwinds parks inside Cqueue::drop and corrupts std's per-thread panic count (finding of the scope work package): re-raise scenarios use thread pollers unless VH_CQ_CO_UNWIND=1",
